@@ -707,8 +707,10 @@ class Paths:
 
         def r(n):
             v = r0(n)
-            if v is not None:
+            if v is not None and not (isinstance(v, tuple) and v and v[0] == "call" and v[1].split("::")[-1] in ("call", "call_mut", "call_once")):
                 return v
+            if v is not None:
+                n = v
             if n[0] == "call" and len(n) == 5 and isinstance(n[4], str) and n[4].startswith("@"):
                 return n[:4] + (n[4] + inst,)
             if n[0] == "call" and n[1].split("::")[-1] in ("call", "call_mut", "call_once") and "::function::Fn" in n[1] and len(n[3]) == 2:
@@ -719,7 +721,7 @@ class Paths:
                     cases = self._apply_callable(c, list(tup[2]), 1)
                     if cases is not None and len(cases) == 1 and not cases[0][0] and not cases[0][1]:
                         return cases[0][2]
-            return None
+            return v
         f = lambda t: _simplify(self.canon.tree(_norm_calls(subst(t, r))), self._ctor_map)
         # the target of a write is a place: what the callee's parameter stands for there is the caller's place, not
         # the value it currently holds (no update / mut history)
